@@ -26,7 +26,7 @@ RULE = ('family = one generated pipeline (single- and multi-input stages: map, s
         'successful fetches equals the number of completed function applications in '
         'the event log. Non-trivial = pipeline with at least 3 stages or a fault fired; '
         'distinct = distinct (pipeline, mode, fault plan, schedule seed).')
-PROBES = ['counters_read_while_iterator_suspended', 'original_iterated_after_wrapper', 'failed_fetch_counted', 'multi_input_stage_wrapped', 'behind_thread_prefetch',
+PROBES = ['two_iterators_over_the_wrapper_in_flight', 'counters_read_while_iterator_suspended', 'original_iterated_after_wrapper', 'failed_fetch_counted', 'multi_input_stage_wrapped', 'behind_thread_prefetch',
           'items_stage_inside', 'partial_iteration', 'indexing_through_wrapper']
 BUDGET = {
     'quick': {'families': 8000, 'wall_cap': 420, 'shrink_s': 12},
@@ -216,6 +216,8 @@ def gen(rng, tier, index):
         # the counters are read while the iterator is still suspended
         cases.append(dict(base, mode='iter', k=rng.randrange(0, nout + 1), epochs=1,
                           hold=True))
+        # two iterators over the wrapped pipeline in flight at once
+        cases.append(dict(base, mode='iter', k=None, epochs=1, interleave=True))
         if a.indexable and a.elems is not None:
             for i in range(len(a.elems)):
                 cases.append(dict(base, mode='index', i=i))
@@ -241,6 +243,29 @@ def observe(ds, case, ctx, use_sim, held=None):
                 obs['epochs'].append(['value', W.norm(ds[case['i']])])
             except Exception as e:
                 obs['epochs'].append(['error', W.exc_kind_of(e), W.norm(e.args)])
+            return
+        if case.get('interleave'):
+            # two iterators over the same object, advanced alternately
+            its = [iter(ds), iter(ds)]
+            outs = [[], []]
+            live = [True, True]
+            rec = ['exhausted', outs, None]
+            try:
+                turn = 0
+                while any(live):
+                    j = turn % 2
+                    turn += 1
+                    if not live[j]:
+                        continue
+                    try:
+                        outs[j].append(W.norm(next(its[j])))
+                    except StopIteration:
+                        live[j] = False
+            except Exception as e:
+                rec[0] = 'error'
+                rec[2] = [W.exc_kind_of(e), W.norm(e.args)]
+            its = None
+            obs['epochs'].append(rec)
             return
         for ep in range(case['epochs']):
             out = []
@@ -326,7 +351,7 @@ def run(case):
             # it had been used instead of the wrapper (hidden shared state, e.g.
             # a per-epoch permutation buffer, shows in its next iteration)
             same_after = None
-            if case['mode'] == 'iter' and not case.get('hold') and any(
+            if case['mode'] == 'iter' and not case.get('hold') and not case.get('interleave') and any(
                     s_['op'] in ('reshuffle', 'local_shuffle', 'shuffle') for s_ in desc['stages']):
                 full = dict(case, k=None, epochs=1)
                 obs_o, fo = observe(orig, full, ctxB, use_sim)
@@ -421,6 +446,8 @@ def run(case):
         probes['items_stage_inside'] = 1
     if case['mode'] == 'iter' and case['k'] is not None:
         probes['partial_iteration'] = 1
+    if case.get('interleave'):
+        probes['two_iterators_over_the_wrapper_in_flight'] = 1
     if case['mode'] == 'index':
         probes['indexing_through_wrapper'] = 1
     fired['mode_' + case['mode']] = 1
